@@ -517,6 +517,19 @@ class HyperscanTokenizer(Tokenizer):
 
         self.hyperscan_db.scan(text_bytes, match_event_handler=on_match)
 
+        # hyperscan matches bytes, so the boundary character of a match can be
+        # a single byte of a multi-byte character: widen each match to whole
+        # characters, otherwise it would be discarded as misaligned below
+        def is_continuation_byte(i):
+            return i < len(text_bytes) and text_bytes[i] & 0xC0 == 0x80
+
+        for i, (extractor, (start, end)) in enumerate(matches):
+            while is_continuation_byte(start):
+                start -= 1
+            while is_continuation_byte(end):
+                end += 1
+            matches[i] = (extractor, (start, end))
+
         # Build a lookup table of byte offset -> str offset for all of the
         # matches we found. Stepping through offsets in sorted order avoids
         # having to decode each part of the string more than once:
